@@ -434,7 +434,7 @@ fn slot_variants(kind: Kind, threads: u8, calls: u8) -> Vec<u8> {
     }
 }
 
-pub const RULE: &str = "schedules of the real code at the granularity of every atomic operation and lock acquisition the runtime performs (yield hook): T threads x K calls through clones on (a) one unordered pattern with a 3-segment response chain, (b) an ordered sequence whose slots accept every call (as many slots as calls, and one fewer), (c) both mixed, (d)/(e) single-use values, (f) an ordered sequence whose slots reject part of the calls (oracle there: no ordered position is handed out twice, and verification fails after a rejection). exhaustive = depth-first enumeration of ALL schedules for (T,K) in {(2,1),(2,2),(3,1),(2,3)} (+ (3,2),(4,1) in the thorough tier); sampled = proptest-generated choice sequences for (3,2)..(4,3); stress = 16 unsynchronised real threads. Oracle: multiset of returned tags / panics per method equals that of positions 1..N of the sequential model, and the verification verdict after join equals the sequential verdict. Non-trivial = >= 2 context switches at yield points; distinct = distinct schedule";
+pub const RULE: &str = "schedules of the real code at the granularity of every atomic operation and lock acquisition the runtime performs (yield hook): T threads x K calls through clones on (a) one unordered pattern with a 3-segment response chain, (b) an ordered sequence whose slots accept every call (as many slots as calls, and one fewer), (c) both mixed, (d)/(e) single-use values, (f) an ordered sequence whose slots reject part of the calls (oracle there: no ordered position is handed out twice, and verification fails after a rejection). exhaustive = depth-first enumeration of ALL schedules for (T,K) in {(2,1),(2,2),(3,1),(2,3)} (+ (3,2),(4,1) in the thorough tier); sampled = proptest-generated choice sequences for (3,2)..(4,3); stress = 16 unsynchronised real threads. lent-answers = T threads x K calls answered through make_ref on ONE shared &Unimock (value-chain cells and the delegator cell are yield points too), optionally the first call of each thread through a provided method (race for the delegation helper): all schedules of (2,1),(2,2) (+ (3,1),(2,3) thorough), sampled (3,2)..(4,3); oracle there: every call reads its own value at the call and at thread end, addresses pairwise distinct, silent teardown. Oracle: multiset of returned tags / panics per method equals that of positions 1..N of the sequential model, and the verification verdict after join equals the sequential verdict. Non-trivial = >= 2 context switches at yield points; distinct = distinct schedule";
 
 pub fn stress(ctx: &Ctx) -> SubReport {
     // real threads, hooks idle: 16 threads hammer an unordered chain and an ordered sequence
@@ -465,6 +465,10 @@ pub fn stress(ctx: &Ctx) -> SubReport {
 #[unimock::unimock(api=EchoMock)]
 pub trait Echo {
     fn echo(&self, x: u32) -> &u32;
+    /// provided: runs on the delegation helper, which the first such call through a `&Unimock` installs
+    fn echo_sum(&self, x: u32) -> u32 {
+        *self.echo(x) + *self.echo(x + 1000)
+    }
 }
 
 fn echo_answer() -> std::sync::Arc<dyn for<'u> Fn(&'u Unimock, u32) -> &'u u32 + Send + Sync> {
@@ -520,6 +524,190 @@ pub fn lend_stress(ctx: &Ctx) -> SubReport {
         rep.record(&case, &CaseInfo::new(true).class("shared-&Unimock-lent-answers"));
     }
     rep
+}
+
+/// Lent answers under a controlled schedule: T threads x K calls on ONE shared `&Unimock`, every call
+/// answered by an answer function that lends its result with `make_ref` (the value-chain cells and the
+/// delegator cell are yield points). With `via_delegation` the first call of every thread goes through the
+/// provided method, so that the threads race for installing the delegation helper.
+#[derive(Clone, Debug, PartialEq, Eq, Hash, Serialize, Deserialize)]
+pub struct LendRaceCase {
+    pub threads: u8,
+    pub calls: u8,
+    pub creator: bool,
+    pub via_delegation: bool,
+    pub schedule: Vec<u8>,
+}
+
+/// (requested, read at the call, read when the thread ends, address); for a delegated call the address is 0
+type Lent = (u32, u32, u32, usize);
+
+fn lend_body(handle: &Unimock, t: usize, calls: u8, via_delegation: bool) -> Result<Vec<Lent>, String> {
+    let mut held: Vec<(u32, u32, &u32)> = vec![];
+    let mut sums: Vec<Lent> = vec![];
+    for k in 0..calls as usize {
+        let x = (t * 100 + k * 2) as u32;
+        if via_delegation && k == 0 {
+            let s = catch(|| handle.echo_sum(x))?;
+            // encode the sum check as a "read" of x
+            let ok = s == 2 * x + 1000;
+            sums.push((x, if ok { x } else { s }, if ok { x } else { s }, 0));
+        } else {
+            let r: &u32 = catch(|| handle.echo(x))?;
+            held.push((x, *r, r));
+        }
+    }
+    let mut out: Vec<Lent> = held.iter().map(|(x, at_call, r)| (*x, *at_call, **r, *r as *const u32 as usize)).collect();
+    out.extend(sums);
+    Ok(out)
+}
+
+pub fn execute_lent(case: &LendRaceCase, schedule: &[u8]) -> Result<Executed, String> {
+    use unimock::MockFn;
+    let u = Unimock::new(EchoMock::echo.each_call(&|m| m.func(|_, _| true)).answers_arc(echo_answer()));
+    let arc = std::sync::Arc::new(u);
+    let first_spawned = case.creator as usize;
+    let mut bodies: Vec<Box<dyn FnOnce() -> Result<Vec<Lent>, String> + Send>> = vec![];
+    for t in first_spawned..case.threads as usize {
+        let handle = arc.clone();
+        let (calls, via) = (case.calls, case.via_delegation);
+        bodies.push(Box::new(move || {
+            let r = lend_body(&handle, t, calls, via);
+            drop(handle);
+            r
+        }));
+    }
+    let run = {
+        let inline: Option<Box<dyn FnOnce() -> Result<Vec<Lent>, String> + '_>> = if case.creator {
+            let handle: &Unimock = &arc;
+            let (calls, via) = (case.calls, case.via_delegation);
+            Some(Box::new(move || lend_body(handle, 0, calls, via)))
+        } else {
+            None
+        };
+        sched::run_with_inline(inline, bodies, schedule)
+    };
+    let original = match std::sync::Arc::try_unwrap(arc) {
+        Ok(o) => o,
+        Err(_) => return Err("HARNESS: a thread kept its handle to the shared mock".into()),
+    };
+    if run.hung {
+        let _ = catch(move || drop(original));
+        return Err("HARNESS: watchdog: a scheduled thread did not get the token within 20 s".into());
+    }
+    let mut addrs = std::collections::BTreeSet::new();
+    let mut verdict = Ok(());
+    'o: for (t, r) in run.results.iter().enumerate() {
+        match r {
+            Err(text) => {
+                verdict = Err(format!("thread {t}: a call that the pattern accepts panicked: {text}"));
+                break;
+            }
+            Ok(lent) => {
+                for (x, at_call, at_end, addr) in lent {
+                    if at_call != x {
+                        verdict = Err(format!("thread {t}: the call for {x} was handed {at_call} (another call's value)"));
+                        break 'o;
+                    }
+                    if at_end != x {
+                        verdict = Err(format!("thread {t}: the reference lent for {x} later reads {at_end}"));
+                        break 'o;
+                    }
+                    if *addr != 0 && !addrs.insert(*addr) {
+                        verdict = Err(format!("thread {t}: the reference lent for {x} shares its address with another lent value"));
+                        break 'o;
+                    }
+                }
+            }
+        }
+    }
+    let teardown = catch(move || drop(original));
+    verdict?;
+    if let Err(text) = teardown {
+        return Err(format!("every call was accepted, yet dropping the mock after join panicked: {text}"));
+    }
+    Ok(Executed { decisions: run.decisions, switches: run.switches, trace_len: run.trace.len() })
+}
+
+pub fn check_lent(case: &LendRaceCase) -> Result<CaseInfo, String> {
+    let e = execute_lent(case, &case.schedule)?;
+    Ok(CaseInfo::new(e.switches >= 2)
+        .class("lent-answers-shared-&Unimock")
+        .class_if(e.switches >= 4, "four-or-more-context-switches")
+        .class_if(case.via_delegation, "provided-method-on-delegation-helper")
+        .class_if(case.creator, "creator-thread-takes-part"))
+}
+
+pub fn lent_exhaustive(configs: &[(u8, u8)], max_delegated_calls: u8, limit: u64) -> SubReport {
+    let mut rep = SubReport::new("lent-answers-exhaustive");
+    rep.exhaustive = true;
+    let mut per_config = vec![];
+    'outer: for &(threads, calls) in configs {
+        for (creator, via_delegation) in [(false, false), (true, false), (false, true), (true, true)] {
+            if via_delegation && calls > max_delegated_calls {
+                continue;
+            }
+            let base = LendRaceCase { threads, calls, creator, via_delegation, schedule: vec![] };
+            let mut execs = 0u64;
+            let mut with_switches = 0u64;
+            let mut max_points = 0usize;
+            let r = sched::enumerate(limit, |path| {
+                let e = execute_lent(&base, path)?;
+                execs += 1;
+                if e.switches >= 2 {
+                    with_switches += 1;
+                }
+                max_points = max_points.max(e.trace_len);
+                Ok(e.decisions)
+            });
+            rep.evaluations += execs;
+            for i in 0..with_switches {
+                rep.nontrivial.insert(vcore::stable_hash(&("lent", threads, calls, creator, via_delegation, i)));
+            }
+            let complete = matches!(r, Ok(Some(_)));
+            match r {
+                Ok(_) => {
+                    if !complete {
+                        rep.exhaustive = false;
+                    }
+                    per_config.push(serde_json::json!({"threads": threads, "calls": calls, "creator_takes_part": creator, "via_delegation": via_delegation,
+                        "schedules": execs, "complete": complete, "yield_points": max_points}));
+                }
+                Err((path, reason)) => {
+                    let mut c = base.clone();
+                    c.schedule = path;
+                    if reason.starts_with("HARNESS") {
+                        rep.inconclusive = Some(reason);
+                    } else {
+                        rep.fail(&c, reason);
+                    }
+                    break 'outer;
+                }
+            }
+            if rep.samples.len() < 2 {
+                rep.samples.push(serde_json::to_value(&base).unwrap());
+            }
+        }
+    }
+    rep.extra.insert("configurations".into(), serde_json::json!(per_config));
+    rep
+}
+
+fn lent_strategy() -> impl Strategy<Value = LendRaceCase> {
+    (prop_oneof![Just((3u8, 2u8)), Just((3, 3)), Just((4, 2)), Just((2, 3)), Just((4, 3))], any::<bool>(), any::<bool>(), vec(any::<u8>(), 0..96))
+        .prop_map(|((threads, calls), creator, via_delegation, schedule)| LendRaceCase { threads, calls, creator, via_delegation, schedule })
+}
+
+/// exhaustive + sampled schedules of lent answers (shared by C10 and C13)
+pub fn lent_reports(ctx: &Ctx) -> Vec<SubReport> {
+    let configs: &[(u8, u8)] = match ctx.tier {
+        vcore::Tier::Quick => &[(2, 1), (2, 2)],
+        vcore::Tier::Thorough => &[(2, 1), (2, 2), (3, 1), (2, 3)],
+    };
+    let mut v = vec![lent_exhaustive(configs, ctx.tier.pick(1, 3) as u8, ctx.tier.pick(200_000, 400_000) as u64)];
+    let n = ctx.tier.pick(6_000, 200_000);
+    v.push(vcore::run_proptest(ctx, "lent-answers-sampled-schedules", n, lent_strategy(), check_lent));
+    v
 }
 
 fn stress_once(case: &RaceCase) -> Result<(), String> {
@@ -615,6 +803,7 @@ pub fn run(ctx: &Ctx) -> Verdict {
     v.subs.extend(run_kinds(ctx, &[(2, 1), (2, 2), (3, 1), (2, 3)], &[Kind::UnorderedChain, Kind::Ordered, Kind::Mixed, Kind::OrderedRejecting]));
     v.subs.push(stress(ctx));
     v.subs.push(lend_stress(ctx));
+    v.subs.extend(lent_reports(ctx));
     v
 }
 
@@ -627,6 +816,10 @@ pub fn replay(_sub: &str, case: Value) -> Result<(), String> {
             Some(f) => Err(f.reason),
             None => Ok(()),
         };
+    }
+    if _sub.starts_with("lent-answers") {
+        let c: LendRaceCase = serde_json::from_value(case).map_err(|e| format!("HARNESS: bad case: {e}"))?;
+        return check_lent(&c).map(|_| ());
     }
     let c: RaceCase = serde_json::from_value(case).map_err(|e| format!("HARNESS: bad case: {e}"))?;
     if c.threads >= 16 {
